@@ -13,3 +13,6 @@ func runExtractor() string {
 	}
 	return ""
 }
+
+// RunExtractAll is `vcheck -extract` (used by setup.sh before the first lake build).
+func RunExtractAll() string { return runExtractor() }
